@@ -300,25 +300,56 @@ Definition pipeline (tag : str) (r : mreq) : outcome :=
       end
   end.
 
-Lemma am_hbh tag r : apply_mod tag (b "NewHopByHopModifier") r = Passed (set_hdr r (remove_hop_by_hop (q_hdr r))).
+Lemma am_hbh cfg tag r : apply_mod cfg tag (b "NewHopByHopModifier") r = Passed (set_hdr r (remove_hop_by_hop (q_hdr r))).
 Proof. reflexivity. Qed.
-Lemma am_fwd tag r : apply_mod tag (b "NewForwardedModifier") r = Passed (forwarded_gen2 xfwd_fill_reads_all_lines xff_reads_all_lines r).
+Lemma am_fwd cfg tag r : apply_mod cfg tag (b "NewForwardedModifier") r = Passed (forwarded_gen2 xfwd_fill_reads_all_lines xff_reads_all_lines r).
 Proof. reflexivity. Qed.
-Lemma am_frm tag r : apply_mod tag (b "NewBadFramingModifier") r =
+Lemma am_frm cfg tag r : apply_mod cfg tag (b "NewBadFramingModifier") r =
   match bad_framing (q_hdr r) with Some h => Passed (set_hdr r h) | None => Refused 500 end.
 Proof. reflexivity. Qed.
-Lemma am_via tag r : apply_mod tag (b "NewViaModifier") r =
+Lemma am_via cfg tag r : apply_mod cfg tag (b "NewViaModifier") r =
   match via_modify tag (q_maj r) (q_min r) (q_hdr r) with
   | ViaRefused st _ => Refused (status_of_error_status st)
   | ViaOk h => Passed (set_hdr r h)
   end.
 Proof. reflexivity. Qed.
-Lemma am_user tag r : apply_mod tag (b "user") r = Passed r.
+Lemma am_user cfg tag r : apply_mod cfg tag (b "user") r = Passed (set_hdr r (user_rules cfg r (q_hdr r))).
 Proof. reflexivity. Qed.
-Lemma am_auth tag r : apply_mod tag (b "setBasicAuth") r = Passed r.
+Lemma am_auth cfg tag r : apply_mod cfg tag (b "setBasicAuth") r = Passed (set_hdr r (site_auth cfg (q_hdr r))).
 Proof. reflexivity. Qed.
-Lemma am_ua tag r : apply_mod tag (b "setEmptyUserAgent") r = Passed (set_hdr r (set_empty_user_agent (q_hdr r))).
+Lemma am_ua cfg tag r : apply_mod cfg tag (b "setEmptyUserAgent") r = Passed (set_hdr r (set_empty_user_agent (q_hdr r))).
 Proof. reflexivity. Qed.
+
+(* the httpspec part of the stack (hop-by-hop, forwarded, framing, via), written out *)
+Definition core_stack (tag : str) (r : mreq) : outcome :=
+  let r1 := set_hdr r (remove_hop_by_hop (q_hdr r)) in
+  let r2 := forwarded_gen2 true true r1 in
+  match bad_framing (q_hdr r2) with
+  | None => Refused 500
+  | Some h3 =>
+      match via_modify_gen true tag (q_maj r2) (q_min r2) h3 with
+      | ViaRefused st _ => Refused (status_of_error_status st)
+      | ViaOk h4 => Passed (set_hdr r2 h4)
+      end
+  end.
+(* ... followed by the inner group: header rules, site credentials, User-Agent sentinel *)
+Definition inner_group (cfg : pcfg) (r : mreq) : mreq :=
+  set_hdr r (set_empty_user_agent (site_auth cfg (user_rules cfg r (q_hdr r)))).
+Definition pipeline_cfg (cfg : pcfg) (tag : str) (r : mreq) : outcome :=
+  match core_stack tag r with Refused s => Refused s | Passed r1 => Passed (inner_group cfg r1) end.
+
+Lemma user_rules_none r h : user_rules no_cfg r h = h.
+Proof. unfold user_rules, no_cfg. cbn [p_connect_rules p_request_rules]. destruct (str_eqb (q_method r) m_connect); reflexivity. Qed.
+Lemma site_auth_none h : site_auth no_cfg h = h.
+Proof. unfold site_auth, no_cfg. cbn [p_cred]. destruct (auth_absent h); reflexivity. Qed.
+
+Lemma pipeline_cfg_none tag r : pipeline_cfg no_cfg tag r = pipeline tag r.
+Proof.
+  unfold pipeline_cfg, core_stack, pipeline. cbn zeta.
+  destruct (bad_framing _) as [h3|]; [|reflexivity].
+  destruct (via_modify_gen true tag _ _ h3) as [st cl|h4]; [reflexivity|].
+  unfold inner_group. cbn [q_hdr set_hdr]. rewrite user_rules_none, site_auth_none. reflexivity.
+Qed.
 
 Section Fixed.
   Hypothesis Hhop : hop_by_hop_headers = spec_hop_list.
@@ -327,15 +358,18 @@ Section Fixed.
   Hypothesis Hfill : xfwd_fill_reads_all_lines = true.
   Hypothesis Hvia : via_reads_all_lines = true.
 
-  Lemma modify_request_is_pipeline tag r : modify_request tag r = pipeline tag r.
+  Lemma modify_request_cfg_is_pipeline cfg tag r : modify_request_cfg cfg tag r = pipeline_cfg cfg tag r.
   Proof.
-    unfold modify_request. rewrite Hflat. unfold fixed_flat_stack. cbn [run_mods].
-    rewrite am_hbh, am_fwd, Hxff, Hfill. rewrite am_frm. unfold pipeline. cbn zeta.
+    unfold modify_request_cfg. rewrite Hflat. unfold fixed_flat_stack. cbn [run_mods].
+    rewrite am_hbh, am_fwd, Hxff, Hfill. rewrite am_frm. unfold pipeline_cfg, core_stack. cbn zeta.
     destruct (bad_framing _) as [h3|]; [|reflexivity].
     rewrite am_via. unfold via_modify. rewrite Hvia. cbn [q_maj q_min q_hdr set_hdr].
     destruct (via_modify_gen true tag _ _ h3) as [st cl|h4]; [reflexivity|].
     rewrite am_user, am_auth, am_ua. reflexivity.
   Qed.
+
+  Lemma modify_request_is_pipeline tag r : modify_request tag r = pipeline tag r.
+  Proof. unfold modify_request. rewrite modify_request_cfg_is_pipeline. apply pipeline_cfg_none. Qed.
 
   (* what the pipeline leaves under each name, in terms of the header after the documented removal *)
   Lemma pipeline_passed tag r r' : pipeline tag r = Passed r' ->
@@ -545,33 +579,37 @@ Proof.
   repeat match goal with |- context [if ?c then _ else _] => destruct c end; reflexivity.
 Qed.
 
-Definition handle_explicit (tag : str) (r : mreq) : outcome :=
+Definition handle_explicit_cfg (cfg : pcfg) (tag : str) (r : mreq) : outcome :=
   let up := upgrade_type (q_hdr r) in
-  match modify_request tag (fix_request_scheme proxy_allow_http r) with
+  match modify_request_cfg cfg tag (fix_request_scheme proxy_allow_http r) with
   | Refused s => Refused s
   | Passed r' => Passed (if is_empty up then r'
                          else set_hdr r' (h_set k_upgrade up (h_set k_connection k_upgrade (q_hdr r'))))
   end.
+Definition handle_explicit (tag : str) (r : mreq) : outcome := handle_explicit_cfg no_cfg tag r.
 
-Lemma hs_fix tag r up : handle_step tag (b "fixRequestScheme") (r, up) = (Passed (fix_request_scheme proxy_allow_http r), up).
+Lemma hs_fix cfg tag r up : handle_step cfg tag (b "fixRequestScheme") (r, up) = (Passed (fix_request_scheme proxy_allow_http r), up).
 Proof. reflexivity. Qed.
-Lemma hs_up tag r up : handle_step tag (b "upgradeType") (r, up) = (Passed r, upgrade_type (q_hdr r)).
+Lemma hs_up cfg tag r up : handle_step cfg tag (b "upgradeType") (r, up) = (Passed r, upgrade_type (q_hdr r)).
 Proof. reflexivity. Qed.
-Lemma hs_mod tag r up : handle_step tag (b "modifyRequest") (r, up) = (modify_request tag r, up).
+Lemma hs_mod cfg tag r up : handle_step cfg tag (b "modifyRequest") (r, up) = (modify_request_cfg cfg tag r, up).
 Proof. reflexivity. Qed.
-Lemma hs_readd tag r up : handle_step tag (b "readdUpgrade") (r, up) =
+Lemma hs_readd cfg tag r up : handle_step cfg tag (b "readdUpgrade") (r, up) =
   (Passed (if is_empty up then r else set_hdr r (h_set k_upgrade up (h_set k_connection k_upgrade (q_hdr r)))), up).
 Proof. reflexivity. Qed.
-Lemma hs_rt tag r up : handle_step tag (b "roundTrip") (r, up) = (Passed r, up).
+Lemma hs_rt cfg tag r up : handle_step cfg tag (b "roundTrip") (r, up) = (Passed r, up).
 Proof. reflexivity. Qed.
 
-Lemma handle_request_explicit tag r : handle_order = fixed_handle_order -> handle_request tag r = handle_explicit tag r.
+Lemma handle_request_cfg_explicit cfg tag r : handle_order = fixed_handle_order -> handle_request_cfg cfg tag r = handle_explicit_cfg cfg tag r.
 Proof.
-  intro Ho. unfold handle_request, handle_explicit. rewrite Ho. unfold fixed_handle_order.
+  intro Ho. unfold handle_request_cfg, handle_explicit_cfg. rewrite Ho. unfold fixed_handle_order.
   cbn [run_handle]. rewrite hs_fix. cbv beta iota. rewrite hs_up. cbv beta iota. rewrite fix_scheme_hdr.
-  rewrite hs_mod. destruct (modify_request tag (fix_request_scheme proxy_allow_http r)) as [s|r']; [reflexivity|].
+  rewrite hs_mod. destruct (modify_request_cfg cfg tag (fix_request_scheme proxy_allow_http r)) as [s|r']; [reflexivity|].
   cbv beta iota. rewrite hs_readd. cbv beta iota. rewrite hs_rt. cbv beta iota. reflexivity.
 Qed.
+
+Lemma handle_request_explicit tag r : handle_order = fixed_handle_order -> handle_request tag r = handle_explicit tag r.
+Proof. apply handle_request_cfg_explicit. Qed.
 
 (* T01 body framing at the modelled Transport layer: the framing kind the next hop sees is the client's
    (an empty Content-Length body counts as no body) *)
@@ -616,7 +654,8 @@ Section Fixed3.
     (is_empty up = true -> raw_get k_connection (q_hdr r') = None /\ raw_get k_upgrade (q_hdr r') = None) /\
     (forall k, k <> k_connection -> k <> k_upgrade -> raw_get k (q_hdr r') = raw_get k (q_hdr r1)).
   Proof.
-    rewrite (handle_request_explicit tag r Horder). unfold handle_explicit. cbn zeta.
+    rewrite (handle_request_explicit tag r Horder). unfold handle_explicit, handle_explicit_cfg. cbn zeta.
+    fold (modify_request tag (fix_request_scheme proxy_allow_http r)).
     destruct (modify_request tag (fix_request_scheme proxy_allow_http r)) as [s|r1] eqn:E; [discriminate|].
     intro H. injection H as <-. exists r1. split; [reflexivity|].
     destruct (is_empty (upgrade_type (q_hdr r))) eqn:Eu.
@@ -875,3 +914,62 @@ Section Master2.
       apply key_ok_all; assumption.
   Qed.
 End Master2.
+
+(* ---------- header rules and site credentials ---------- *)
+Lemma site_auth_pointwise cfg h k : basic_auth_tests_key_presence = true ->
+  raw_get k (site_auth cfg h) =
+    if str_eqb k k_authorization then
+      match raw_get k_authorization h with
+      | Some vs => Some vs
+      | None => match p_cred cfg with Some (u, p) => Some [basic_value u p] | None => None end
+      end
+    else raw_get k h.
+Proof.
+  intro Hk. unfold site_auth, auth_absent. rewrite Hk.
+  destruct (str_eqb k k_authorization) eqn:E.
+  - apply str_eqb_eq in E. subst k. destruct (raw_get k_authorization h) as [vs|] eqn:E2; [exact E2|].
+    destruct (p_cred cfg) as [[u p]|]; [apply raw_get_h_set_same; reflexivity | exact E2].
+  - destruct (raw_get k_authorization h); [reflexivity|].
+    destruct (p_cred cfg) as [[u p]|]; [|reflexivity].
+    apply raw_get_h_set_other; [reflexivity | apply str_eqb_neq; exact E].
+Qed.
+
+Lemma core_stack_method tag r r1 : core_stack tag r = Passed r1 -> q_method r1 = q_method r.
+Proof.
+  unfold core_stack. cbn zeta. destruct (bad_framing _) as [h3|]; [|discriminate].
+  destruct (via_modify_gen true tag _ _ h3); [discriminate|]. intro H. injection H as <-.
+  cbn [q_method set_hdr]. destruct (forwarded_fields true true (set_hdr r (remove_hop_by_hop (q_hdr r)))) as [A _]. exact A.
+Qed.
+
+Section Configured.
+  Hypothesis Hflat : flat_stack = fixed_flat_stack.
+  Hypothesis Hxff : xff_reads_all_lines = true.
+  Hypothesis Hfill : xfwd_fill_reads_all_lines = true.
+  Hypothesis Hvia : via_reads_all_lines = true.
+
+  (* the configured stack = the httpspec part, then the rules of the request's kind in order, then the site
+     credentials, then the User-Agent sentinel; without configuration the middle two steps are the identity *)
+  Lemma rules_and_credentials_applied cfg tag r :
+    modify_request_cfg cfg tag r =
+      match core_stack tag r with
+      | Refused s => Refused s
+      | Passed r1 =>
+          Passed (set_hdr r1 (set_empty_user_agent (site_auth cfg
+                    (G16.Model.apply_rules (if str_eqb (q_method r) m_connect then p_connect_rules cfg else p_request_rules cfg)
+                                           (q_hdr r1)))))
+      end /\
+    modify_request tag r =
+      match core_stack tag r with
+      | Refused s => Refused s
+      | Passed r1 => Passed (set_hdr r1 (set_empty_user_agent (q_hdr r1)))
+      end.
+  Proof.
+    split.
+    - rewrite (modify_request_cfg_is_pipeline Hflat Hxff Hfill Hvia). unfold pipeline_cfg.
+      destruct (core_stack tag r) as [s|r1] eqn:E; [reflexivity|].
+      unfold inner_group, user_rules. rewrite (core_stack_method tag r r1 E). reflexivity.
+    - unfold modify_request. rewrite (modify_request_cfg_is_pipeline Hflat Hxff Hfill Hvia). unfold pipeline_cfg.
+      destruct (core_stack tag r) as [s|r1]; [reflexivity|].
+      unfold inner_group. rewrite user_rules_none, site_auth_none. reflexivity.
+  Qed.
+End Configured.
